@@ -87,6 +87,9 @@ class State(object):
         self.obligations = []
         self.locks = []            # stack of lock objects held (monitor)
         self.derived = set()       # ids of terms read out of another container / out of a field (aliases, see alias_guard)
+        # every map above that is keyed by a z3 ast id pins its term here: z3 reuses the ids of collected terms, and a
+        # stale entry would then type (or mark) an unrelated new term.  Shared by all copies of the state.
+        self.keep = []
         self.written_params = set()
         self.notes = []
         self.tags = {}
@@ -120,6 +123,7 @@ class State(object):
         s.elemtypes = dict(self.elemtypes)
         s.hard = list(self.hard)
         s.derived = set(self.derived)
+        s.keep = self.keep
         return s
 
     # --- heap -----------------------------------------------------------------------------------
@@ -145,6 +149,7 @@ class State(object):
         v = V.VObj(ref)
         if pycls is not None:
             self.types[v.get_id()] = pycls
+            self.keep.append(v)
         return v
 
     def assume(self, f):
@@ -158,6 +163,12 @@ class State(object):
     def settype(self, v, pycls):
         if pycls is not None and z3.is_expr(v):
             self.types[v.get_id()] = pycls
+            self.keep.append(v)
+        return v
+
+    def pin(self, v):
+        if z3.is_expr(v):
+            self.keep.append(v)
         return v
 
     def typeof(self, v):
@@ -210,6 +221,7 @@ class Executor(object):
         self.t_start = _t.time()
         self.budget_s = int(_os.environ.get("VERIF_FN_BUDGET_S", "300"))
         self.isinst_cands = {}
+        self.pinned = []
         loops_ = [n for n in ast.walk(ast.Module(body=env.fn.body, type_ignores=[])) if isinstance(n, (ast.For, ast.While))]
         for n in sorted(loops_, key=lambda n: (n.lineno, n.col_offset)):      # ordinals follow the source order
             self.loop_ordinals[id(n)] = len(self.loop_ordinals)
@@ -274,7 +286,7 @@ class Executor(object):
             if k == z3.Z3_OP_AND:
                 stack.extend(t.children())
             elif k == z3.Z3_OP_DT_IS:
-                st.tags[t.arg(0).get_id()] = t.decl().params()[0].name()
+                st.tags[st.pin(t.arg(0)).get_id()] = t.decl().params()[0].name()
 
     def quick_false(self, st, g):
         if not z3.is_app(g):
@@ -571,14 +583,14 @@ class Executor(object):
         if mon is not None and hasattr(mon, "on_read"):
             mon.on_read(self, st, v, attr)
         val = st.read(Val.ref(v), attr)
-        st.derived.add(val.get_id())
+        st.derived.add(st.pin(val).get_id())
         info = self.env.fields.lookup(pycls, attr) or {}
         ftype = info.get("type")
         if ftype is not None:
             t = self.env.fields.resolve(ftype)
             st.settype(val, t)
         if info.get("elem_type") is not None:
-            st.elemtypes[val.get_id()] = self.env.fields.resolve(info["elem_type"])
+            st.elemtypes[st.pin(val).get_id()] = self.env.fields.resolve(info["elem_type"])
         return val
 
     def ev_Subscript(self, st, e):
@@ -606,7 +618,7 @@ class Executor(object):
         from . import jsonish
         if z3.is_expr(container) and z3.is_expr(comp):
             st.pc.append(jsonish.component(container, comp))
-            st.derived.add(comp.get_id())
+            st.derived.add(st.pin(comp).get_id())
 
     def concrete(self, v):
         sv = z3.simplify(v)
@@ -659,7 +671,7 @@ class Executor(object):
         if et is not None:
             for s2, oc in res:
                 if oc[0] == "val":
-                    s2.elemtypes[oc[1].get_id()] = et
+                    s2.elemtypes[s2.pin(oc[1]).get_id()] = et
         return res
 
     def ev_UnaryOp(self, st, e):
@@ -980,6 +992,7 @@ class Executor(object):
         sub.inline_depth = depth + 1
         sub.dead_paths = self.dead_paths
         sub.isinst_cands = self.isinst_cands
+        sub.pinned = self.pinned
         bound = CT.bind_arguments(fn, args, kwargs, self)
         s0 = st.copy()
         saved_locals = s0.locals
@@ -1201,7 +1214,7 @@ class Executor(object):
 
     def mark_derived(self, st, v):
         if z3.is_expr(v):
-            st.derived.add(v.get_id())
+            st.derived.add(st.pin(v).get_id())
 
     def as_store(self, e):
         return e   # assign() dispatches on node type only
